@@ -449,6 +449,16 @@ type G struct {
 	selIdx  int
 	parked  string
 	client  int
+	obs     map[*value]uint64 // last value this goroutine observed per atomic cell (spin detection)
+}
+
+// observe records the value an atomic load returned to g: a retry loop that
+// sees a different value each time round is making progress.
+func (g *G) observe(p *value, v value) {
+	if g.obs == nil {
+		g.obs = map[*value]uint64{}
+	}
+	g.obs[p] = uint64(hashString(toString(v))) + 1
 }
 
 func alwaysEnabled() bool { return true }
@@ -808,6 +818,11 @@ func (ex *Exec) signature() uint64 {
 		for _, o := range g.held {
 			h = mix(h, objID(o)+7)
 		}
+		var osum uint64
+		for _, v := range g.obs {
+			osum += mix(31, v)
+		}
+		h = mix(h, osum)
 	}
 	// order-independent contribution of the model objects
 	var sum uint64
